@@ -117,6 +117,9 @@ def run(ctx, cfg):
             ctx.check("sched:learner_nu", L.kw.get("nu") == numax, "learner %d: nu=%s" % (i, L.kw.get("nu")))
             if base_name == "T_HOO":
                 ctx.check("sched:learner_rounds", L.kw.get("rounds") == n, "learner %d: rounds=%s" % (i, L.kw.get("rounds")))
+            from harness.common import partition_class
+            ctx.check("sched:learner_domain_and_partition", L.kw.get("domain") is dom and L.kw.get("partition") is partition_class(cfg["part"]),
+                      "learner %d was not constructed on the user's domain / partition class" % i)
             rhos.append(rho)
         ctx.check("sched:rhos_distinct", len(set(rhos)) == len(rhos), "learner parameters are not pairwise distinct")
         for (t, pt, r, pulled, credited, new, own) in served:
